@@ -154,6 +154,10 @@ func runC15(c *core.Ctx) core.Meta {
 		stp := c.Rule("R15.10", "the component keeps ticking while any of its steps made progress: where a function with a bool result collects its answer in a loop (over requests per cycle, banks, ports), the value carried around the loop is derived from itself on the back edge (p = step() || p). A plain assignment keeps only the last iteration's answer; the component reports no progress and is not ticked again although an earlier iteration left work to continue", 1)
 		checkProgressAccumulated(c, stp, "R15.10", p, "The component stops ticking with work pending; requests already accepted are never completed")
 	}
+	{
+		stp := c.Rule("R15.11", "a step that did something counts as progress: in every function with a bool result, the result of each call to a step of the package that can consume or send a message flows into the returned value, as data or through the short circuit p = step() || p. A step whose result only steers a loop (if !step() { break }) can take a message off a port while the tick reports no progress; the component is not ticked again and the messages behind it are never read", 1)
+		checkStepResultsCount(c, stp, "R15.11", p, "a response that was attached or a request that was forwarded in this tick does not keep the component ticking; with more input queued than one tick handles it goes to sleep and nothing wakes it (a port notifies only when a message arrives at an empty buffer)")
+	}
 	// R15.9 a handled message leaves its port
 	st9 := c.Rule("R15.9", "a message the reorder buffer looked at and reported progress for is taken off its port: from PeekIncoming (message present) no path of a handler reaches `return true` without RetrieveIncoming on the same port (callees followed); a message left at the head is handled again on the next tick (a request forwarded twice, a response attached twice) and blocks the port", 2)
 	checkPeekedHandledConsumed(c, st9, "R15.9", p, "the same message is handled again on the next tick")
